@@ -162,7 +162,7 @@ CHECKS = {
             U("props/sys", "TestC12MaxJobs", (1500, 3), (20000, 4)),
             U("props/sys", "TestC12SystemReqs", (20000, 1), (300000, 2)),
             U("props/run", "TestE2Resources", (40, 6), (1200, 8)),
-            U("props/run", "TestE2Cluster", (3, 6), (60, 8)),
+            U("props/run", "TestE2Cluster", (8, 8), (60, 8)),
         ],
         "floors": {"quick": {"semaphore": 5000, "maxjobs": 2000, "systemreqs": 10000, "e2-resources": 150, "jobs-overlapped": 40, "e2-cluster": 10}},
     },
@@ -353,7 +353,7 @@ CHECKS = {
         "assumptions": ["edits are applied to the generator's IR and printed; an edit that makes the program stop compiling is skipped and counted"],
         "units": [U("props/lang", "TestC15Equivalence", (6000, 8), (100000, 10)),
                   U("props/run", "TestE2Lock", (20, 6), (500, 8))],
-        "floors": {"quick": {"semantic": 10000, "cosmetic": 10000, "edit:repoint-disabled": 100, "edit:rename-filetype": 500, "edit:includes": 2000, "e2-lock": 80}},
+        "floors": {"quick": {"semantic": 10000, "cosmetic": 10000, "edit:repoint-disabled": 60, "edit:rename-filetype": 500, "edit:includes": 2000, "e2-lock": 60}},
     },
     "C19": {
         "level": "exploration",
@@ -363,12 +363,13 @@ CHECKS = {
                        "callable names used as types) x one edit on a reachable callable: rename stage/pipeline, rename input, rename output, remove input, remove output, remove unused calls+outputs "
                        "with every root pipeline as top call.  Every result must compile.  Renames: the call-graph JSON must equal that of the program printed from the generator's IR after the same "
                        "rename, and X->Y->X must give the original call-graph JSON and be EquivalentCall both ways.  Removals: no new graph node, every remaining stage node resolves its remaining "
-                       "inputs, disabling conditions and fork roots as before, preflights stay, the top-level call's resolved outputs are unchanged (remove-output: compile only). Exploration."),
+                       "inputs, disabling conditions and fork roots as before, preflights stay, the top-level call's resolved outputs are unchanged (remove-output: compile only). Two edits requested in one run (a callable rename, possibly of a callable called through an alias, plus an input or output rename under the new name) must give what the same edits give in two runs (both compile, equivalent calls, identical call graph). Exploration."),
         "level_note": ("A quarter of the cases spread the program over three files (main.mro including pipes.mro and sub/types.mro, a diamond) and apply the edit the way `mro edit` does for a set of files.  Edits with no valid result are skipped and counted: removing the last output of a callable whose "
                        "output struct is a parameter type.  Three classes are excluded as known findings (wildcard-bound inputs, output edits through struct values, map call losing its only split)."),
         "rule": "rapid program generator x edit kind x target; non-trivial: the edit changed >= 2 places of the file; distinct by hash(program text, edit, callable, parameter); classes: edit kind, multi-site.",
         "assumptions": ["the reference for renames is the generator's IR with the identifier replaced at its declaration, at every call/binding/reference and where the callable's name is used as a type"],
-        "units": [U("props/lang", "TestC19Refactor", (3000, 10), (60000, 12))],
+        "units": [U("props/lang", "TestC19Refactor", (3000, 10), (60000, 12)),
+                  U("props/lang", "TestC19Combined", (2500, 4), (40000, 4))],
         "floors": {"quick": {"edit:rename-callable": 3000, "edit:rename-input": 1000, "edit:rename-output": 500, "edit:remove-input": 1000, "edit:remove-output": 300, "edit:remove-unused": 2000, "multi-site": 5000, "multi-file": 3000}},
     },
     "C16": {
@@ -411,3 +412,12 @@ CHECKS = {
         "floors": {"quick": {"filter:changed": 1000, "mode:near-miss": 1000, "assign:yes": 1000, "assign:no": 1000}},
     },
 }
+
+# A floor is there to notice a class of cases that has (almost) vanished from
+# a generator, not to pin a count.  The numbers above are what a few seeds
+# produced when they were written; the driver compares against half of each,
+# so that an ordinary run at another seed stays well clear of it.
+for _c in CHECKS.values():
+    for _f in _c.get("floors", {}).values():
+        for _k in _f:
+            _f[_k] //= 2
